@@ -17,3 +17,16 @@ claim("C09", "exploration",
       "Histories of add/delete/stop/err-fb-coupling edits with valid, repeated, self and out-of-range indices interleaved with blocks whose primaries are planted at globally unique frames: after each edit the reported connection state is compared with a set model, after each block each receiver's multiset of secondaries with the union of its model sources' primaries, and each secondary's samples with the receiver's own stream.",
       "Primaries are identified by construction (unique planted frames), so the histories are unambiguous. Connection edits are applied through the source methods the RPC layer calls (ChangeGroupTrigger, StopTriggerCoupling, SetCoupling).",
       "set-model + multiset-conservation oracle over tapped records and reported state", "DESIGN.md §3 C09")
+
+claim("C12", "exploration",
+      "Real NewPhaseUnwrapper/UnwrapInPlace on generated 16-bit sequences under the Abaco (16/4) and Roach (14/2) option sets and random ones; outputs are checked for congruence modulo the quantum, step bounds between resets, equality with an integer model of the statement, and independence of the split into calls (incl. empty and one-sample calls).",
+      "The integer model is the statement made executable; offsets that differ by 2^16 are the same offset (the output is 16 bit). fractionBits-drop is kept <= 14 (every caller uses 12).",
+      "reference integer model + split-invariance (metamorphic) over generated sequences", "DESIGN.md §3 C12")
+claim("C13", "exploration",
+      "Real AnalyzeData on generated records (signed/unsigned, extreme contents, npre 3..1000, with and without projectors/basis) compared with exact-rational / 300-bit references of each definition; the float32 fields of the summary message are decoded and compared too.",
+      "Tolerance 1e-9 x the largest magnitude entering a sum (never tighter than double arithmetic of these formulas allows); peak value uses the code's documented convention (>= 0).",
+      "math/big reference oracle over generated records", "DESIGN.md §3 C13")
+claim("C14", "exploration",
+      "Every generated record is encoded by the real builders and also sent through the real PUB sockets to ZMQ SUB sockets; an independent encoding/binary decoder at the documented offsets must recover every field bit for bit (incl. NaN/Inf), and a subscriber filtered on a 2-byte channel prefix must get all and only that channel's messages. Thorough runs under the race detector (checkptr on the unsafe slice conversions).",
+      "Trusts libzmq's in-order delivery on one connection and the document's table (48-byte summary header).",
+      "independent decoder over messages observed on a real ZMQ SUB socket; checkptr in thorough", "DESIGN.md §3 C14")
